@@ -112,8 +112,14 @@ type Drawing struct {
 	H     int     `json:"h"`
 	Draws []RDraw `json:"draws"`
 }
+type ShapeRec struct {
+	El  int      `json:"el"`
+	Haz []string `json:"haz"`
+	FP  []Event  `json:"fp"` // outline cells when the element has no (non-zero rule) fill paint
+}
 type Scenario struct {
 	Mode    string   `json:"mode"`
+	Shapes  []ShapeRec `json:"shapes"`
 	Doc     *Doc     `json:"doc,omitempty"`
 	Drawing *Drawing `json:"drawing,omitempty"`
 	Size    [4]int   `json:"size"`
